@@ -11,7 +11,7 @@ use std::collections::BTreeMap;
 
 pub static PROP: Prop = Prop {
     id: "C06",
-    rule: "cases: programs of 1-10 statements over the names v0..v3 (plus names bound to context functions and an unbound name as targets) and an initial context with 0-4 variables of every type and 0-3 constant context functions (a fifth of the programs draws its numbers from the edge palette; the never-bound names include `sum` and `vh_g0`, which are registered functions): `x = e`, `x op= e` for all 10 compound operators, bare reads, expressions reading variables and containing nested assignments, chained/nested assignments (a = b = e, a = b += 1, x = x = e, x op= ((x = c) == u ? 3 : 4), and the flat chain `a OP1 b OP2 e` for every pair of the eleven assignment operators - chains are written without parentheses, so their right-to-left grouping is the engine's), values of changing type, failing statements at every position (type error, division by zero, unknown function, non-name targets 3 = e, min(1) = e, [a] += e, f() = e and sum() op= e for callable f, calls whose arguments assign: nofn(x = 1), f(f = 3), min(x = 2, \"x\")); empty contexts are built with create_context!(). Each program is run through execute (context handle kept for inspection) and through parse_expression + exec(&mut ctx). Oracle: a model context and the reference evaluator in lock-step: the program's result and, after return, the binding of every name in play must equal the model (after a failing statement: exactly the bindings made before it). Non-trivial: >= 2 assignments to one name, or a compound assignment, or a failing statement that is not the first; distinct by (statement/operator skeleton, outcome class).",
+    rule: "cases: programs of 1-10 statements over the names v0..v3 (plus names bound to context functions and an unbound name as targets) and an initial context with 0-4 variables of every type and 0-3 constant context functions (in a quarter of the contexts also `boom`, a context function that always fails: a bare `boom` statement, a read of it or an assignment to it stops the program there) (a fifth of the programs draws its numbers from the edge palette; the never-bound names include `sum` and `vh_g0`, which are registered functions): `x = e`, `x op= e` for all 10 compound operators, bare reads, expressions reading variables and containing nested assignments, chained/nested assignments (a = b = e, a = b += 1, x = x = e, x op= ((x = c) == u ? 3 : 4), and the flat chain `a OP1 b OP2 e` for every pair of the eleven assignment operators - chains are written without parentheses, so their right-to-left grouping is the engine's), values of changing type, failing statements at every position (type error, division by zero, unknown function, non-name targets 3 = e, min(1) = e, [a] += e, f() = e and sum() op= e for callable f, calls whose arguments assign: nofn(x = 1), f(f = 3), min(x = 2, \"x\")); empty contexts are built with create_context!(). Each program is run through execute (context handle kept for inspection) and through parse_expression + exec(&mut ctx). Oracle: a model context and the reference evaluator in lock-step: the program's result and, after return, the binding of every name in play must equal the model (after a failing statement: exactly the bindings made before it). Non-trivial: >= 2 assignments to one name, or a compound assignment, or a failing statement that is not the first; distinct by (statement/operator skeleton, outcome class).",
     assumptions: &[
         "`x op= e` is specified as binding x to what `x op e` yields: the model evaluates the target, then e, then op",
         "when the reference outcome is unspecified (rounding, inexact quotient) bindings made from that value are not compared",
